@@ -105,6 +105,31 @@ CLAIMED.update({
     ),
 })
 
+CLAIMED.update({
+    'C04': (
+        'proxy symbolic execution (bvx/z3 bit-vectors) of PACK/UNPACK, the type classes and the real forge code, against a reference encoder/decoder',
+        'Bounded symbolic model checking: symbolic values of a catalogue of packable types are packed by the real code and compared with '
+        '0x05 || reference binary Micheline of a reference optimized rendering; UNPACK(PACK v) = Some v; every proper prefix of PACK v and every '
+        'byte string up to the bound must unpack to None unless it is valid binary Micheline; base58-rendered leaves with fully symbolic payloads.',
+        'First integer leaf up to the width, further ones < 2^13; strings/bytes <= 2-3 symbols; collections <= 2-3; boundary stub for Base58Check.',
+        'DESIGN.md C04',
+    ),
+    'C31': (
+        'z3 EUF: the real hash.py functions executed with Blake2b as an uninterpreted function and leaves as free constants; equality with the reference Merkle term',
+        'Bounded symbolic model checking: for every list length up to the bound the term computed by the real code is proved equal (congruence '
+        'closure) to the reference root over padded leaves, for all hash values at once; lists of lists and the payload hash likewise.',
+        'Blake2b and byte concatenation are uninterpreted; counterexamples are replayed with the real Blake2b.',
+        'DESIGN.md C31',
+    ),
+    'C32': (
+        'solver-driven exploration (bvx/z3 selectors) of view names and code trees through the real ViewSection.match',
+        'Bounded symbolic model checking over selector variables: name length/position/character class and the placement of restricted '
+        'instructions under nested wrappers with siblings are chosen by the solver, all feasible assignments are explored, and acceptance is compared with the rule of the property.',
+        'Each explored case is a concrete view definition (structure is enumerated by the solver); grammar of wrappers/siblings as listed in the evidence.',
+        'DESIGN.md C32',
+    ),
+})
+
 NOT_APPLICABLE = {
     'C18': 'Parser is a PLY regex lexer + LALR tables + json; every input is concrete before the code under test runs, '
            'so a solver has nothing to decide (CrossHair regex model also unsound here). See DESIGN.md section 6.',
